@@ -910,6 +910,17 @@ fn evaluate(f: &[&str]) -> Vec<String> {
     for nme in &o.names {
         revealed.push(hex(nme.as_bytes()));
     }
+    // a failed create_multipart_upload answers no id although it drew one: recover it from the record it left
+    let mut upload_id = o.upload_id.clone();
+    if upload_id.is_none() && input.op == "create_multipart_upload" {
+        for rel in after.keys() {
+            if !before.contains_key(rel) {
+                if let Some(id) = rel.strip_prefix("root/.upload-").and_then(|x| x.strip_suffix(".json")) {
+                    upload_id = Some(id.to_owned());
+                }
+            }
+        }
+    }
     changed.sort();
     revealed.sort();
     revealed.dedup();
@@ -922,7 +933,7 @@ fn evaluate(f: &[&str]) -> Vec<String> {
         o.code,
         changed.join(","),
         revealed.join(","),
-        opt_hex(o.upload_id.as_deref().map(str::as_bytes)),
+        opt_hex(upload_id.as_deref().map(str::as_bytes)),
         hex(outer_s.as_bytes()),
         hex(cwd.as_bytes()),
     ]
